@@ -100,7 +100,15 @@ def run_pool(prop, tier, jobs, budget_s=None):
                 p.join(5)
                 del running[i]
             elif not p.is_alive():
-                out[i] = {"qid": q.qid, "status": "error", "error": "worker died (exit %s)" % p.exitcode}
+                # the worker may have sent its result and exited between the poll above and this test: look again
+                if pc.poll(0.5):
+                    try:
+                        out[i] = pc.recv()
+                    except EOFError:
+                        out[i] = {"qid": q.qid, "status": "error", "error": "worker died (exit %s)" % p.exitcode}
+                else:
+                    out[i] = {"qid": q.qid, "status": "error", "error": "worker died (exit %s)" % p.exitcode}
+                p.join(5)
                 del running[i]
             elif time.time() - ts > q.timeout * 3 + 120:
                 p.kill()
